@@ -222,6 +222,7 @@ def run(ctx: core.Ctx) -> core.Outcome:
         if e["e"] == "request":
             statuses[e["status"]] = statuses.get(e["status"], 0) + 1
     cov = dict(states=res.distinct, transitions=res.generated, design_spec="Access", routes=len(routes),
+               traces_validated_against_impl=len(trace["ev"]), samples=[trace["ev"][0], trace["ev"][len(trace["ev"]) // 2]],
                requests=sum(1 for e in trace["ev"] if e["e"] == "request"), listings=sum(1 for e in trace["ev"] if e["e"] == "listing"),
                editor_calls=sum(1 for e in trace["ev"] if e["e"] == "editor"), statuses={str(k): v for k, v in statuses.items()},
                route_list=[f"{m} {p}" for m, p, _ in routes], **stats)
